@@ -114,15 +114,19 @@ def show_h(f):
 def hist(cm, cs, bs, ops):
     f = Bec2File(Bf3File(b3.parse_comments(cm), b3.parse_comps(cs)), b2.parse_blocks(bs), bytes(range(16)))
     outs = []
+    shared = {}          # one dict object per configuration of the history, handed to every operation that names it
+
+    def cfg(spec):
+        return shared.setdefault(spec, parse_dict(spec))
     for o in ops.split("/"):
         t = o.split("!")
         try:
             if t[0] == "setcfg":
-                f.bf3file.set_config(parse_dict(t[1]), as_iterable(parse_blocks_list(t[2])))
+                f.bf3file.set_config(cfg(t[1]), as_iterable(parse_blocks_list(t[2])))
             elif t[0] == "derivec":
-                f.bf3file.derive_comments_from_config(parse_dict(t[1]))
+                f.bf3file.derive_comments_from_config(cfg(t[1]))
             elif t[0] == "derivea":
-                f.derive_auth_blocks_from_config(parse_dict(t[1]), t[2] == "1")
+                f.derive_auth_blocks_from_config(cfg(t[1]), t[2] == "1")
             elif t[0] == "append":
                 f.bf3file.components.append(b3.parse_comps(t[1])[0])
             elif t[0] == "insert":
@@ -316,20 +320,23 @@ def prop_c11(cm, cs, bs, ops):
     is_cfg = lambda c: c.description.get(0xC3) == b"\x03"
     others = [c for c in f.bf3file.components if not is_cfg(c)]          # abstract: non-config components in order
     last_cfg = None
+    shared = {}          # the caller's configuration objects: one dict per configuration, reused by later operations
     comments = dict(f.bf3file.comments)
     derived = ("Configuration", "DeviceSettings", "RequiresBusAddress")
     for n, o in enumerate(ops.split("/")):
         t = o.split("!")
         try:
+            if t[0] in ("setcfg", "derivec", "derivea"):
+                live = shared.setdefault(t[1], parse_dict(t[1]))
             if t[0] == "setcfg":
                 conf = parse_dict(t[1])
-                f.bf3file.set_config(conf, as_iterable(parse_blocks_list(t[2])))
+                f.bf3file.set_config(live, as_iterable(parse_blocks_list(t[2])))
                 ref = Bf3File()
                 ref.set_config(conf, as_iterable(parse_blocks_list(t[2])))
                 last_cfg = ref.components[0]
             elif t[0] == "derivec":
                 conf = parse_dict(t[1])
-                f.bf3file.derive_comments_from_config(conf)
+                f.bf3file.derive_comments_from_config(live)
                 ref = Bf3File({})
                 ref.derive_comments_from_config(conf)
                 for k in derived:
@@ -338,7 +345,7 @@ def prop_c11(cm, cs, bs, ops):
             elif t[0] == "derivea":
                 conf = parse_dict(t[1])
                 had = bool(f.auth_blocks)
-                f.derive_auth_blocks_from_config(conf, t[2] == "1")
+                f.derive_auth_blocks_from_config(live, t[2] == "1")
                 if not had:
                     ref = Bec2File(Bf3File(), [], bytes(16))
                     want = ["c" if t[2] == "1" else "e0"]
